@@ -207,7 +207,37 @@ def g_xonly(rng):
     return nq, [("X", [rng.randrange(nq)], None) for _ in range(rng.randint(1, 10))], "x_only"
 
 
-GENS = [(g_classical, 22), (g_perm, 16), (g_cancel, 14), (g_subset, 10), (g_mixed, 22), (g_occupied, 10), (g_ctrl_flip, 8), (g_xonly, 6)]
+def g_toffoli_word(rng):
+    """Words over two or three fixed Toffoli / CX gates on 3-4 qubits (a b a b a b a, palindromes, powers): the
+    decompiled expressions are xors of deeply nested products whose simplification has to cancel exactly."""
+    nq = rng.randint(3, 4)
+    letters = []
+    while len(letters) < rng.randint(2, 3):
+        if rng.random() < 0.8:
+            w = rng.sample(range(nq), 3)
+            g = ("CCX", w, None)
+        else:
+            w = rng.sample(range(nq), 2)
+            g = ("CX", w, None)
+        if g not in letters:
+            letters.append(g)
+    shape = rng.choice(["alternate", "palindrome", "power", "random"])
+    if shape == "alternate":
+        word = [letters[i % 2] for i in range(rng.randint(3, 9))]
+    elif shape == "palindrome":
+        half = [rng.choice(letters) for _ in range(rng.randint(2, 4))]
+        word = half + [rng.choice(letters)] + half[::-1]
+    elif shape == "power":
+        word = letters * rng.randint(2, 3)
+    else:
+        word = [rng.choice(letters) for _ in range(rng.randint(4, 9))]
+    cir = [(k, list(w), p) for k, w, p in word]
+    if rng.random() < 0.2:
+        cir.insert(rng.randint(0, len(cir)), ("X", [rng.randrange(nq)], None))
+    return nq, cir, "toffoli_word"
+
+
+GENS = [(g_toffoli_word, 14), (g_classical, 22), (g_perm, 16), (g_cancel, 14), (g_subset, 10), (g_mixed, 22), (g_occupied, 10), (g_ctrl_flip, 8), (g_xonly, 6)]
 
 FIXED = [
     (3, [("CCX", [0, 1, 2], None), ("X", [0], None)], "into_occupied_qubit"),
@@ -223,6 +253,8 @@ FIXED = [
          ("X", [0], None), ("CX", [2, 1], None)], "classical"),
     (3, [("X", [0], None), ("CX", [0, 1], None), ("Barrier", [], None), ("Barrier", [], None), ("H", [2], None)], "mixed"),
     (2, [], "classical"),
+    (3, [("CCX", [1, 0, 2], None), ("CCX", [2, 0, 1], None), ("CCX", [0, 1, 2], None), ("CCX", [2, 0, 1], None), ("CCX", [0, 1, 2], None),
+         ("CCX", [2, 0, 1], None), ("CCX", [1, 0, 2], None)], "toffoli_word"),
     (2, [("H", [0], None), ("CP", [0, 1], 0.5)], "mixed"),
 ]
 
